@@ -305,7 +305,16 @@ def handle_write(ck):
         if isinstance(h.ast.value, ast.Subscript):
             ck.ob("C12.future-fifo", fi, h.ast, q.is_const(h.ast.value.slice, 0), "the oldest queued write (head of the queue) is examined")
         # predicate: resolve iff index <= done
-        rel = [(t, pol) for t, pol in gf[node.id] if not t.startswith("@") and "self._total_write_done_index" in t and ivar in t]
+        # facts at the resolution, plus - when the pair is popped from the head - the facts that held about the
+        # head's index (`self._write_futures[0][0]`) just before the pop (the pop itself invalidates them)
+        HEAD_INDEX = "self._write_futures[0][0]"
+        cand = [(t, pol) for t, pol in gf[node.id]]
+        if h in pops and not any(c_.args for c_ in q.calls(h.ast) if q.receiver(c_) == "self._write_futures") and any(q.call_attr(c_) == "popleft" for c_ in q.calls(h.ast)):
+            cand += [(t.replace(HEAD_INDEX, ivar), pol) for t, pol in gf[h.id] if HEAD_INDEX in t]
+        rel = [(t, pol) for t, pol in cand if not t.startswith("@") and "self._total_write_done_index" in t and ivar in t]
+        if not rel and any(q.call_attr(c_) in ("popleft", "pop", "__getitem__") for c_ in q.calls(h.ast)) and not any("self._total_write_done_index" in t for t, _p in cand):
+            # no comparison with the done index is known at all on the way to the resolution
+            pass
         bad = []
         for i in range(0, 4):
             for d in range(0, 4):
@@ -582,6 +591,9 @@ def run(ck):
     ck.rule("C12.buffer-kinds", "_StreamBuffer.append: (True, x) chunks are memoryviews, (False, x) chunks are private bytearrays, in-place coalescing only into a bytearray tail")
     ck.rule("C12.buffer-size", "_StreamBuffer._size is adjusted by len(data)/size exactly once per call; non-empty data is stored exactly once; advance asserts 0 < size <= _size")
     ck.rule("C12.buffer-pos", "_StreamBuffer keeps the head position: advance stores it, accounts for it when dropping a chunk, peek starts at it")
+    from ..x_iostream import normalised
+
+    normalised(ck)
     write(ck)
     handle_write(ck)
     stream_buffer(ck)
